@@ -398,6 +398,9 @@ func paramIndex(x *ssa.Parameter) int {
 // generic origin's instantiation fn); ok=false when fn is also used as a value (callers unknown) or never called.
 func staticCallSites(p *Program, fn *ssa.Function) ([]ssa.CallInstruction, bool) {
 	var out []ssa.CallInstruction
+	if fn.Parent() != nil {
+		return closureCallSites(fn)
+	}
 	for _, caller := range p.Funcs {
 		for _, b := range caller.Blocks {
 			for _, in := range b.Instrs {
@@ -937,4 +940,112 @@ func sliceElemCtorCalls(s ssa.Value, dv *dev, seen map[ssa.Value]bool) ([]*ssa.C
 		return out, len(out) > 0
 	}
 	return nil, false
+}
+
+// closureCallSites: the call sites of a function literal that is only ever called: directly, through the local variable
+// it was assigned to once, or through that variable captured by sibling closures. ok=false when the literal escapes
+// any other way (passed on, returned, stored elsewhere, the variable reassigned).
+func closureCallSites(fn *ssa.Function) ([]ssa.CallInstruction, bool) {
+	var out []ssa.CallInstruction
+	ok := true
+	var useVal func(v ssa.Value)
+	var useCell func(cell ssa.Value, maker ssa.Value)
+	useVal = func(v ssa.Value) { // v holds the closure
+		refs := v.Referrers()
+		if refs == nil {
+			ok = false
+			return
+		}
+		for _, r := range *refs {
+			switch y := r.(type) {
+			case ssa.CallInstruction:
+				if y.Common().Value != v {
+					ok = false // passed as an argument
+					return
+				}
+				out = append(out, y)
+			case *ssa.Store:
+				if y.Val != v {
+					ok = false
+					return
+				}
+				if _, isAlloc := y.Addr.(*ssa.Alloc); !isAlloc {
+					ok = false
+					return
+				}
+				useCell(y.Addr, v)
+			case *ssa.DebugRef:
+			default:
+				ok = false
+				return
+			}
+		}
+	}
+	seenCell := map[ssa.Value]bool{}
+	useCell = func(cell ssa.Value, maker ssa.Value) {
+		if seenCell[cell] {
+			return
+		}
+		seenCell[cell] = true
+		refs := cell.Referrers()
+		if refs == nil {
+			ok = false
+			return
+		}
+		for _, r := range *refs {
+			switch y := r.(type) {
+			case *ssa.Store:
+				if y.Addr == cell && y.Val != maker && maker != nil {
+					ok = false // reassigned
+					return
+				}
+				if y.Addr != cell {
+					ok = false
+					return
+				}
+			case *ssa.UnOp:
+				if y.Op != token.MUL {
+					ok = false
+					return
+				}
+				useVal(y)
+			case *ssa.MakeClosure:
+				child := y.Fn.(*ssa.Function)
+				for i, b := range y.Bindings {
+					if b == cell && i < len(child.FreeVars) {
+						useCell(child.FreeVars[i], nil)
+					}
+				}
+			case *ssa.DebugRef:
+			default:
+				ok = false
+				return
+			}
+		}
+	}
+	refs := fn.Referrers()
+	if refs == nil {
+		return nil, false
+	}
+	for _, r := range *refs {
+		mc, isMC := r.(*ssa.MakeClosure)
+		if !isMC {
+			if ci, isCall := r.(ssa.CallInstruction); isCall && ci.Common().Value == ssa.Value(fn) {
+				out = append(out, ci) // a literal without free variables, called in place
+				continue
+			}
+			if st, isSt := r.(*ssa.Store); isSt && st.Val == ssa.Value(fn) {
+				if _, isAlloc := st.Addr.(*ssa.Alloc); isAlloc {
+					useCell(st.Addr, fn)
+					continue
+				}
+			}
+			return nil, false
+		}
+		useVal(mc)
+	}
+	if !ok || len(out) == 0 {
+		return nil, false
+	}
+	return out, true
 }
